@@ -18,8 +18,22 @@ pub fn test(reg: &Reg, case: &Case, mut stats: Option<&mut Stats>) -> Verdict {
     let n = n_decisions(&inf.trace);
     let mut execs = 1u64;
     let history = |t: &[Event]| dv_core::trace::show_trace(t);
-    // every switch position k
-    for k in 0..n {
+    // every switch position k - for the rare monster cases (hundreds of decisions in a very long container) a
+    // spread of 48 positions: the cost of a case is otherwise quadratic in its size
+    let ks: Vec<usize> = if n <= 48 {
+        (0..n).collect()
+    } else {
+        let mut v: Vec<usize> = (0..16).chain(n - 16..n).collect();
+        let mut x = case.aux | 1;
+        for _ in 0..16 {
+            x = x.wrapping_mul(6364136223846793005).wrapping_add(1442695040888963407);
+            v.push(16 + (x >> 33) as usize % (n - 32));
+        }
+        v.sort();
+        v.dedup();
+        v
+    };
+    for k in ks {
         let outk = oracles::run(e, &case.payload, src, &Script::break_at(k));
         execs += 1;
         if let Err((sig, what)) = oracles::c03_at_k(&inf.trace, k, &outk) {
@@ -121,7 +135,7 @@ pub fn test(reg: &Reg, case: &Case, mut stats: Option<&mut Stats>) -> Verdict {
         }
         st.class(&format!("origin: {}", e.origin));
         if st.want_sample() && n > 0 {
-            st.samples.push(sample_json(reg, case, json!({"decisions_in_keep_going_run": n, "switch_positions_tried": n, "keep_going_history": history(&inf.trace)})));
+            st.samples.push(sample_json(reg, case, json!({"decisions_in_keep_going_run": n, "switch_positions_tried": n.min(48), "keep_going_history": history(&inf.trace)})));
         }
     }
     Verdict::Ok
@@ -137,7 +151,7 @@ pub fn run(tier: Tier) -> i32 {
     drive(
         "C03",
         tier,
-        "cases = (type, payload, source); for each: the keep-going run T_inf with n decisions, then EVERY switch position k in 0..n (Continue^k then Break forever), EVERY one of the 2^n answer sequences when n <= 6, plus the case's arbitrary script; \
+        "cases = (type, payload, source); for each: the keep-going run T_inf with n decisions, then EVERY switch position k in 0..n (Continue^k then Break forever; a spread of 48 positions when n > 48), EVERY one of the 2^n answer sequences when n <= 6, plus the case's arbitrary script; \
          oracle: history up to decision k identical to T_inf; afterwards only hand-overs of the error just built, climbing towards the root (no report, no payload visit, no user-function call); Err returned and built from exactly the reports so far; \
          deserialize with JsonError / QueryParamError == public-API rendering of the first report of T_inf; non-trivial = n >= 3, or a report in a payload of >= 4 nodes; distinct by (type, payload)",
         (400_000, 6_000_000),
